@@ -6,7 +6,7 @@ from dataclasses import replace
 from typing import Dict, List, Optional
 
 from . import schema
-from .domains import ClsV, Const, ElemE, ExcV, IdxE, ListE, NoneV, ObjE, Ref, State, StrV, TupleV, Unknown
+from .domains import ClsV, Const, ElemE, ExcV, IdxE, ListE, NoneV, ObjE, Ref, S, State, StrV, TupleV, Unknown
 from .engine import Engine
 from .front import AnalysisError, norm
 from .harness import merge_entries
@@ -592,6 +592,13 @@ class MergeFlow(Engine):
         self.find_('SILENT-SUCCESS', st, node, cons,
                    'a warning is emitted on a path where no named element was missing or duplicated (or the same miss is reported twice)')
 
+    def on_elem_bool(self, st, node, elem):
+        self.count('elem-bool', st, node)
+        self.find_('NO-ELEM-BOOL', st, node, f'bool({self.describe(elem, st)})',
+                   'an Element is used as a condition inside a merge: its truth value is "has children" (a childless element is false) and testing it '
+                   'emits DeprecationWarning on Python 3.12, which -W error turns into an exception in the middle of the merge'
+                   + (f' (the running order was already changed: {st.mon["mutated"]})' if st.mon.get('mutated') else ''))
+
     def on_raise(self, stmt, exc, st):
         self.count('raise', st, stmt)
         if self.hier.isa(exc.cls, 'MosMergeError'):
@@ -601,7 +608,8 @@ class MergeFlow(Engine):
     def on_find(self, st, node, parent, tag, result, path):
         if isinstance(tag, str) and st.get(parent.sym).origin[0] == 'root' and st.get(parent.sym).prov == 'RO' \
                 and any(f.func is not None and f.func.name == '__add__' for f in st.frames) \
-                and not any(f.func is not None and f.func.name == 'merge' for f in st.frames):
+                and not any(f.func is not None and f.func.name == 'merge' for f in st.frames) \
+                and tag not in schema.DOCUMENTED_TAGS:          # (reading the running order's own roCreate, e.g. for a message text, is no marker probe)
             self.guard_tags.add(tag)
             if result is not None:
                 st.mon['guard_present'] = tuple(sorted(set(st.mon.get('guard_present') or ()) | {tag}))
@@ -713,6 +721,37 @@ class MergeFlow(Engine):
             for v, s in self.call_function(add, [msg], {}, st, None, self_val=ro):
                 self.judge_outcome(v, s, ro)
         return self
+
+    def run_refusal(self, marker: str):
+        """RunningOrder.__add__ on a completed running order (marker present) and a message about which *nothing* is
+        assumed - no schema, not even the envelope: the refusal must not depend on the message at all."""
+        from .harness import base_state, base_tag_literal, make_object, new_root
+        add = self.prog.func('RunningOrder.__add__')
+        st = base_state(self)
+        ro_root = new_root(st, 'RO', 'RO')
+        msg_root = new_root(st, 'MSG', 'MSG', schema_on=False)
+        outs = []
+        for ro, s1 in make_object(self, self.prog.cls('RunningOrder'), ro_root, st):
+            for msg, s2 in make_object(self, self.prog.cls(self.cname), msg_root, s1):
+                if isinstance(ro, Raise) or isinstance(msg, Raise):
+                    raise AnalysisError('constructor raises in the refusal harness')
+                s2.frame.env['ro'], s2.frame.env['msg'] = ro, msg
+                s2.mon['sym:rootreq'] = {ro_root.sym: (base_tag_literal(self, self.prog.cls('RunningOrder')),)}
+                sym = s2.new(ElemE('RO', marker, ro_root.sym, True, ('first', S(ro_root.sym), marker), schema=True))
+                s2.first[(ro_root.sym, marker)] = sym
+                self.ro_root = s2.get(ro.sym).get('_xml')
+                saved = dict(self.findings)
+                try:
+                    for v, s in self.call_function(add, [msg], {}, s2, None, self_val=ro):
+                        if isinstance(v, Raise):
+                            site = v.exc.site if v.exc.site else ('?', 0, '?', '?')
+                            outs.append({'result': 'raise ' + v.exc.cls, 'msg': v.exc.msg, 'file': site[0], 'line': site[1], 'func': site[2], 'text': site[3],
+                                         'mutated': bool(s.mon.get('mutated'))})
+                        else:
+                            outs.append({'result': 'return', 'mutated': bool(s.mon.get('mutated'))})
+                finally:
+                    self.findings = saved
+        return outs
 
     def judge_outcome(self, v, s: State, ro):
         kind, level, _ = self.role
